@@ -201,6 +201,60 @@ func newCBPAnchors(p *core.Prog) *cbpAnchors {
 	return a
 }
 
+// apportionFn is the function that apportions a sent batch to the pending entries (it builds the
+// contributor tuples): the sending function itself, or the package function it calls for that
+// (`thisBatch := b.takeContributors(sent)`), bound to its call site and transparent to the slicer.
+func (a *cbpAnchors) apportionFn() *ssa.Function {
+	hasTupleLit := func(f *ssa.Function) bool {
+		found := false
+		core.EachInstr(f, func(i ssa.Instruction) {
+			al, ok := i.(*ssa.Alloc)
+			if !ok || found {
+				return
+			}
+			named := core.NamedOf(al.Type())
+			if named == nil || named.Obj().Pkg() == nil || named.Obj().Pkg().Path() != core.CBPPath || len(ctxFields(al.Type().(*types.Pointer).Elem())) == 0 {
+				return
+			}
+			for _, r := range core.Referrers(al) {
+				if fa, ok := r.(*ssa.FieldAddr); ok && isCtx(core.FieldVar(fa).Type()) {
+					for _, r2 := range core.Referrers(fa) {
+						if s, ok := r2.(*ssa.Store); ok && s.Addr == ssa.Value(fa) {
+							found = true
+						}
+					}
+				}
+			}
+		})
+		return found
+	}
+	if a.sendFn == nil || hasTupleLit(a.sendFn) {
+		return a.sendFn
+	}
+	var res *ssa.Function
+	core.EachInstr(a.sendFn, func(i ssa.Instruction) {
+		cl, ok := i.(*ssa.Call)
+		if !ok || res != nil {
+			return
+		}
+		h := cl.Call.StaticCallee()
+		if h == nil || h.Blocks == nil || core.FnPkgPath(h) != core.CBPPath || !hasTupleLit(h) {
+			return
+		}
+		res = h
+		for k, pr := range h.Params {
+			if k < len(cl.Call.Args) {
+				core.BindParam(pr, cl.Call.Args[k])
+			}
+		}
+		core.MarkTransparent(h)
+	})
+	if res == nil {
+		return a.sendFn
+	}
+	return res
+}
+
 func (a *cbpAnchors) ok(c *core.Ctx) bool {
 	if len(a.errs) > 0 {
 		c.Undecided("anchors", "?", "", "cannot resolve batch-processor anchors: "+strings.Join(a.errs, "; "))
